@@ -91,9 +91,16 @@ CHECKS = [
       text='PARTIAL by nature: regex-lite is not modelled. The four wrappers are modelled over an abstract Engine; proved: is_match iff find non-empty, capture shape and equal lengths, replace = replacen with the documented defaults and limit, escaped literals = contains/count/replace — each relative to explicit engine laws — and invalid pattern => error with no law. '
            'Tie: wrapper outputs compared exactly given the raw engine answers; the laws and the property\'s relations are evaluated on the crate by relaw.',
       note=TB + 'engine laws (LawfulEngine, ReplacenSplices, LiteralLaw) are hypotheses sampled as tests.'),
+
+ dict(property_id='C15', design_ref='DESIGN.md 7 C15',
+      technique='Lean 4 proofs: builtin models = independent sequence specification; position-coherence laws for both index bases + builtin correspondence in both builds',
+      text='Proved in Lean: the search family (contains/find/count/replace/split) equals an independent specification written with List.IsInfix/IsPrefix and leftmost non-overlapping occurrences (incl. the empty needle), split is the unique decomposition, '
+           'at enumerates the string over first..first+length-1 and fails outside, copy(s, find(s,x), length(x)) = x for every substring, failed find = first-1 (arrays -1), insert/copy/length coherence, reverse involutive, unique = first-occurrence dedup, csv/trim/case functions — for both offsets and all strings (characters, not bytes). '
+           'Tie: 21 builtins in both index-base builds against the model; falsifier: the laws evaluated on the builtins.',
+      note=TB + 'LawfulIdx (small integers exact in binary64) is a hypothesis of the position theorems, tied by the num stream; Unicode tables from Rust std.'),
 ]
 _PENDING = 'not yet claimed: its model, theorems and streams are under construction in this framework (see DESIGN.md section 12, build order)'
 NOT_APPLICABLE = [dict(property_id=p, reason=_PENDING) for p in
-                  ['C15','C16','C17']]
+                  ['C16','C17']]
 NOTES = ('All checks share one engine: tools/check.py <id>. Replays: tools/check.py <id> --replay <file>. '
          'known_findings.json lists recorded defects (KNOWN-FINDING lines) and fixed ones.')
